@@ -233,6 +233,20 @@ func scenarios(tier string) []scen {
 			out = append(out, s2)
 		}
 	}
+	// include filters: an asset's redirection leaves the scope while other URLs of that level are still pending
+	{
+		page := func(u string, refs ...string) world.Node { return world.Node{URL: u, Kind: "html", Refs: refs} }
+		d := world.SiteDef{Name: "include-host: asset redirecting out of scope + asset redirecting within + playlist", Seeds: []string{world.H + "/page"},
+			Nodes: []world.Node{page(world.H+"/page", world.H+"/ra", world.H+"/rb", world.H+"/pl.m3u8"),
+				{URL: world.H + "/ra", Kind: "redirect", Location: "http://cdn.elsewhere.net/x.png"}, {URL: "http://cdn.elsewhere.net/x.png", Kind: "bin"},
+				{URL: world.H + "/rb", Kind: "redirect", Code: 302, Location: world.H + "/ra.png"}, {URL: world.H + "/ra.png", Kind: "bin"},
+				{URL: world.H + "/pl.m3u8", Kind: "m3u8", Refs: []string{"seg0.ts"}}, {URL: world.H + "/seg0.ts", Kind: "bin"}}}
+		for _, ca := range [][2]int{{1, 1}, {1, 2}} {
+			out = append(out, scen{Def: d, Opt: world.Options{Workers: ca[0], MaxConcurrentAssets: ca[1], MaxRetry: 1, MaxRedirect: 2, IncludeHosts: []string{"s.example"}}, P: depthP})
+		}
+		d2 := world.SiteDef{Name: "include-host: seed redirecting out of scope", Seeds: []string{world.H + "/r"}, Nodes: []world.Node{{URL: world.H + "/r", Kind: "redirect", Location: "http://cdn.elsewhere.net/x.png"}}}
+		out = append(out, scen{Def: d2, Opt: world.Options{Workers: 1, MaxConcurrentAssets: 1, MaxRetry: 1, MaxRedirect: 2, IncludeHosts: []string{"s.example"}}, P: depthP})
+	}
 	// the same sites with a stop request placed anywhere in the run
 	for _, name := range [][]string{{"page", "bin", "redir"}, {"redir1", "m3u8", "flaky"}, {"page", "cut", "redirB"}} {
 		d := world.MkSite("seed="+name[0]+" assets="+name[1]+"+"+name[2], name[0], name[1:])
